@@ -54,7 +54,46 @@ def k_grid(n, d, tier):
     return sorted(k for k in ks if 0 <= k <= kmax)
 
 
+def equiv_jobs(tier):
+    out = []
+    for (n, d) in ((1000, 1), (200, 3), (44100, 1), (10, 3), (48000, 7), (10**6, 3)):
+        out.append(("equiv", n, d, (10, 1000, 7)))
+    return out
+
+
+def run_equiv(job):
+    """calls with n/d, then (m*n)/(m*d), then n/d again: results depend on (k, n, d) only, never on call history"""
+    part = core.new_part()
+    _, n, d, mults = job
+    ks = np.array(sorted({0, 1, n - 1, n, n + 1, 7 * n + n // 3, 10**6 + 1, 10**9 + n // 2, 1394333998 * n // d + 3}), dtype=np.uint64)
+    seq = [(n, d)]
+    for m in mults:
+        if n * m < 2**32 and d * m <= 10**9:
+            seq += [(n * m, d * m), (n, d)]
+    for (nn, dd) in seq:
+        rc, sec, ps = chelper.floor_batch(nn, dd, ks)
+        for k, s_, p_ in zip(ks.tolist(), sec.tolist(), ps.tolist()):
+            es, rem = divmod(k * dd, nn)
+            ep = rem * T12 // nn
+            if rc or (s_, p_) != (es, ep):
+                if len(part["violations"]) < 3:
+                    part["violations"].append(core.Violation({"class": "floor_depends_on_call_history"}, {"job": list(job)},
+                                                             "timestamp_floor(k=%d,n=%d,d=%d) = (%d,%d), exact (%d,%d), after the call sequence %r" % (k, nn, dd, s_, p_, es, ep, seq)))
+        rc2, back = chelper.ceil_batch(nn, dd, sec, ps)
+        if rc2 or back.tolist() != ks.tolist():
+            if len(part["violations"]) < 3:
+                part["violations"].append(core.Violation({"class": "roundtrip"}, {"job": list(job)}, "round trip fails for n=%d d=%d after %r" % (nn, dd, seq)))
+        part["evaluations"] += 2 * len(ks)
+        part["transitions"] += 2 * len(ks)
+    part["nontrivial"].add(core.canon(job))
+    part["states"].add(core.canon(job))
+    part["outcomes"]["equivalent_fractions"] += 1
+    return part
+
+
 def run_job(job):
+    if job[0] == "equiv":
+        return run_equiv(job)
     part = core.new_part()
 
     def bad(key, case, detail):
@@ -193,7 +232,7 @@ def main(tier):
                      "exact model: sec=k*d//n, ps=((k*d) mod n)*1e12//n, ceil((s*1e12+p)*n/(d*1e12)) in Python integers"],
     )
     stage.activate()
-    jobs = small_jobs(tier) + mag_jobs(tier)
+    jobs = small_jobs(tier) + mag_jobs(tier) + equiv_jobs(tier)
     rot = core.seed() % len(jobs)
     jobs = jobs[rot:] + jobs[:rot]
     for part in core.pmap(run_job, jobs, chunksize=8):
